@@ -442,11 +442,12 @@ B, CF, R = "pipefunc/_pipeline/_base.py", "pipefunc/_pipeline/_cache.py", "pipef
 MUTANTS = [
     Mutant("map-key-by-dunder-name", "pipefunc/map/_run.py", "    cache_key = (func.output_name, to_hashable(kwargs))\n", "    cache_key = (func.__name__, to_hashable(kwargs))\n", ("C09.4-map-key",), why="round-4 seed C09/12"),
     Mutant("intermediate-guard-dropped-F14", B,
-           "            if any(name in self.output_to_func for name in flat_scope_kwargs):\n                # An intermediate result was provided, the output is then\n                # not determined by the root arguments and should not be cached.\n                cache_key = None\n            else:\n                cache_key = compute_cache_key(\n                    func.output_name,\n                    self._func_defaults(func) | flat_scope_kwargs | func._bound,\n                    root_args,\n                )\n",
-           "            cache_key = compute_cache_key(\n                func.output_name,\n                self._func_defaults(func) | flat_scope_kwargs | func._bound,\n                root_args,\n            )\n", ("C09.1-key-complete",), why="original F14"),
+           "            if any(name in self.output_to_func for name in flat_scope_kwargs):\n                # An intermediate result was provided, the output is then\n                # not determined by the root arguments and should not be cached.\n                cache_key = None\n            else:\n                cache_key = compute_cache_key(\n                    func.output_name,\n                    # The root arguments are parameters of upstream functions (a parameter that\n                    # is bound in `func` is not a root argument of `func`), `func._bound` says\n                    # nothing about their values.\n                    self._func_defaults(func) | flat_scope_kwargs,\n                    root_args,\n                )\n",
+           "            cache_key = compute_cache_key(\n                func.output_name,\n                self._func_defaults(func) | flat_scope_kwargs,\n                root_args,\n            )\n", ("C09.1-key-complete",), why="original F14"),
+    Mutant("bound-overrides-root-argument-F47", B, "                    self._func_defaults(func) | flat_scope_kwargs,\n", "                    self._func_defaults(func) | flat_scope_kwargs | func._bound,\n", ("C09.1-key-complete",), why="original F47"),
     Mutant("guard-by-function-output-name", B, "            if any(name in self.output_to_func for name in flat_scope_kwargs):\n", "            if any(f.output_name in flat_scope_kwargs for f in self.functions):\n", ("C09.1-key-complete",), why="seeded C09/2"),
-    Mutant("merge-in-place", B, "                    self._func_defaults(func) | flat_scope_kwargs | func._bound,\n", "                    self._func_defaults(func).update(flat_scope_kwargs) or self._func_defaults(func),\n", ("C09.1-key-complete",), why="seeded C09/1"),
-    Mutant("key-supplied-before-defaults", B, "                    self._func_defaults(func) | flat_scope_kwargs | func._bound,\n", "                    flat_scope_kwargs | self._func_defaults(func) | func._bound,\n", ("C09.1-key-complete",)),
+    Mutant("merge-in-place", B, "                    self._func_defaults(func) | flat_scope_kwargs,\n", "                    self._func_defaults(func).update(flat_scope_kwargs) or self._func_defaults(func),\n", ("C09.1-key-complete",), why="seeded C09/1"),
+    Mutant("key-supplied-before-defaults", B, "                    self._func_defaults(func) | flat_scope_kwargs,\n", "                    flat_scope_kwargs | self._func_defaults(func),\n", ("C09.1-key-complete",)),
     Mutant("key-partial-root-args", CF, "    for k in root_args:\n        if k not in kwargs:", "    for k in root_args[:1]:\n        if k not in kwargs:", ("C09.1-key-complete",)),
     Mutant("map-key-hash", R, "    cache_key = (func.output_name, to_hashable(kwargs))\n", "    cache_key = (func.output_name, hash(to_hashable(kwargs)))\n", ("C09.4-map-key",), why="seeded C09/3"),
     Mutant("map-hashes-other-kwargs", R, "    return _get_or_set_cache(func, selected, cache, compute_fn)\n", "    return _get_or_set_cache(func, {k: v for k, v in selected.items() if k in func.parameters}, cache, compute_fn)\n", ("C09.4-map-key",)),
